@@ -41,15 +41,18 @@ def layout(rep, interps):
     A, B, C, D = res.items
     S = ['ord(c_values)', 'ord(l_values)']
     NV = ['node!=zero', 'is_ideal_voltage_source']
+    def tv(ok, *axes):
+        # an axis that was not typed leaves the layout undecided (it does not refute it)
+        return None if (not ok and any('?:' in show(a) for a in axes)) else ok
     okA = _preds(A.axes[0]) == S and _preds(A.axes[1]) == S
-    rep.ob('R10.layout', 'A', okA, f'{show(A.axes[0])} × {show(A.axes[1])}')
-    rep.ob('R10.layout', 'B', _preds(B.axes[0]) == S, f'{show(B.axes[0])} × {show(B.axes[1])}')
-    rep.ob('R10.layout', 'C', _preds(C.axes[0]) == NV and _preds(C.axes[1]) == S, f'{show(C.axes[0])} × {show(C.axes[1])}')
-    rep.ob('R10.layout', 'D', _preds(D.axes[0]) == NV and same(D.axes[1], B.axes[1]), f'{show(D.axes[0])} × {show(D.axes[1])}')
+    rep.ob('R10.layout', 'A', tv(okA, *A.axes), f'{show(A.axes[0])} × {show(A.axes[1])}')
+    rep.ob('R10.layout', 'B', tv(_preds(B.axes[0]) == S, B.axes[0]), f'{show(B.axes[0])} × {show(B.axes[1])}')
+    rep.ob('R10.layout', 'C', tv(_preds(C.axes[0]) == NV and _preds(C.axes[1]) == S, *C.axes), f'{show(C.axes[0])} × {show(C.axes[1])}')
+    rep.ob('R10.layout', 'D', tv(_preds(D.axes[0]) == NV and same(D.axes[1], B.axes[1]), *D.axes, B.axes[1]), f'{show(D.axes[0])} × {show(D.axes[1])}')
     U = B.axes[1]
     fu = flat(U)
     okU = len(fu) == 2 and fu[0][0] == 'S' and fu[0][1] == 'is_current_source' and fu[1][0] == 'SUB' and fu[1][2] == 'notin:l_values' and fu[1][1][1] == 'is_ideal_voltage_source'
-    rep.ob('R10.layout', 'U', okU, f'input space {show(U)}')
+    rep.ob('R10.layout', 'U', tv(okU, U), f'input space {show(U)}')
     src = interps['model'].sources
     if src is None or src.kind != 'list':
         rep.ob('R10.layout', 'sources', None, f'sources property not followed: {src!r:.100}')
